@@ -121,11 +121,15 @@ def main():
             rows.append((d.name, meta["property"], verdict, r["no_failing_input"], r["what"]))
             print(f"{d.name:12s} {meta['property']} {verdict:6s} {'(no-failing-input)' if r['no_failing_input'] else ''} {r['what'] or ''}", flush=True)
         # merge into the recorded results (a partial run updates only the seeds it ran)
+        import fcntl
+
         rp = VERIF / "seeded" / "RESULTS.json"
-        old = {r["seed"]: r for r in json.loads(rp.read_text())} if rp.exists() else {}
-        for r in rows:
-            old[r[0]] = dict(zip(["seed", "property", "verdict", "no_failing_input", "what"], r))
-        rp.write_text(json.dumps([old[k] for k in sorted(old)], indent=1))
+        with open(VERIF / "seeded" / ".results.lock", "w") as lk:  # several partial runs may finish at the same time
+            fcntl.flock(lk, fcntl.LOCK_EX)
+            old = {r["seed"]: r for r in json.loads(rp.read_text())} if rp.exists() else {}
+            for r in rows:
+                old[r[0]] = dict(zip(["seed", "property", "verdict", "no_failing_input", "what"], r))
+            rp.write_text(json.dumps([old[k] for k in sorted(old)], indent=1))
 
 
 if __name__ == "__main__":
